@@ -447,6 +447,23 @@ def l4_programs(ty="i32"):
         [["const", ty, 0], one, ["cjmp", "p0", "<=", "%0", 1, 2]],
         [["ret", "p1"]],
         [["bin", "-", "p0", "%1", ty], ["call", "@f", ["%2", "p1"], ty], ["ret", "%3"]]]}]})
+    # a stack slot allocated inside a loop body (not in the entry block), stored on one arm of a diamond only and loaded at the join
+    # (the load reads an undefined value on the other arm: behaviour is not compared then, but every pass must keep the module well formed)
+    progs.append({"name": "l4_alloc_in_loop_body", "functions": [{"name": "f", "ret": ty, "params": [ty, ty], "blocks": [
+        [["const", ty, 0], one, ["jmp", 1]],
+        [["phi", ty, [[0, "%0"], [4, "%8"]]], ["phi", ty, [[0, "%0"], [4, "%7"]]], ["cjmp", "%2", "<", "p0", 2, 5]],
+        [["alloc", 8, 8], ["addr", "%4"], ["cjmp", "%2", "<", "p1", 3, 4]],
+        [["store", "%2", "%5"], ["jmp", 4]],
+        [["load", ty, "%5"], ["bin", "+", "%3", "%6", ty], ["bin", "+", "%2", "%1", ty], ["jmp", 1]],
+        [["ret", "%3"]]]}]})
+    # the same with the slot initialised in the block that allocates it (fully defined behaviour)
+    progs.append({"name": "l4_alloc_in_loop_body_initialised", "functions": [{"name": "f", "ret": ty, "params": [ty, ty], "blocks": [
+        [["const", ty, 0], one, ["jmp", 1]],
+        [["phi", ty, [[0, "%0"], [4, "%8"]]], ["phi", ty, [[0, "%0"], [4, "%7"]]], ["cjmp", "%2", "<", "p0", 2, 5]],
+        [["alloc", 8, 8], ["addr", "%4"], ["store", "%1", "%5"], ["cjmp", "%2", "<", "p1", 3, 4]],
+        [["store", "%2", "%5"], ["jmp", 4]],
+        [["load", ty, "%5"], ["bin", "+", "%3", "%6", ty], ["bin", "+", "%2", "%1", ty], ["jmp", 1]],
+        [["ret", "%3"]]]}]})
     #   f(a, b) = a <= 0 ? b : f(a-1, a-1)              -- the same new value for both parameters
     progs.append({"name": "l4_tailrec_same_value_twice", "functions": [{"name": "f", "ret": ty, "params": [ty, ty], "blocks": [
         [["const", ty, 0], one, ["cjmp", "p0", "<=", "%0", 1, 2]],
